@@ -41,8 +41,8 @@ PLANS = {
             'thorough': [E('C09', 'tsan', 10000, 3600, run_wall_s=600, tier=1), E('C09PG', 'tsan', 5000, 900, seed_offset=500000, run_wall_s=300, tier=1),
                          E('C10', 'tsan', 2000, 1200, seed_offset=700000, run_wall_s=600), E('C05', 'tsan', 2000, 1200, seed_offset=800000, run_wall_s=600)]},
     # C12: seeds 0..1039 enumerate (3-man class, colour assignment, abort step 0..63, abort kind) completely; the rest samples 4-man classes
-    'C12': {'quick': [E('C12', 'plain', 1040 + 40, 140, enumerate=True, run_wall_s=200,
-                        prep=['build/plain/texelsim dtm all3', 'build/plain/texelsim dtm KQvKR', 'build/plain/texelsim dtm KRBvK'])],
+    'C12': {'quick': [E('C12', 'plain', 1040 + 45, 140, enumerate=True, run_wall_s=200,
+                        prep=['build/plain/texelsim dtm all3', 'build/plain/texelsim dtm KQvKR', 'build/plain/texelsim dtm KRBvK', 'build/plain/texelsim dtm KRRvK'])],
             'thorough': [E('C12', 'plain', 1040 + 1200, 7200, enumerate=True, run_wall_s=600,
                            prep=['build/plain/texelsim dtm all3 KQQvK KQRvK KQBvK KQNvK KRRvK', 'build/plain/texelsim dtm KRBvK KRNvK KBBvK KBNvK KNNvK',
                                  'build/plain/texelsim dtm KQvKQ KQvKR KQvKB KQvKN KRvKR', 'build/plain/texelsim dtm KRvKB KRvKN KBvKB KBvKN KNvKN'])]},
